@@ -323,7 +323,14 @@ theorem irf_popitem (x : Index) (E : Externals) (now : Int) (last : Bool) (h : i
     have hc2 := irf_delitem_pos_core c1 E now (DC.get E s.cfg.disk r.key r.raw) r (by omega) hsel1
     have hti2 : TableInv (c1.delitem E now (DC.get E s.cfg.disk r.key r.raw)).1 :=
       delitem_inv _ _ _ _ hti1
-    generalize (c1.delitem E now (DC.get E s.cfg.disk r.key r.raw)).1 = c2 at hc2 hti2 ⊢
+    have hdo : (c1.delitem E now (DC.get E s.cfg.disk r.key r.raw)).2 = .bool true :=
+      (delitem_some c1 E now _ r hsel1).1
+    cases hdd : c1.delitem E now (DC.get E s.cfg.disk r.key r.raw) with
+    | mk c2 o2 =>
+    rw [hdd] at hc2 hti2 hdo
+    simp only at hc2 hti2 hdo ⊢
+    subst hdo
+    simp only
     rw [hc1] at hc2
     have hd2 : c2.depth = 1 := congrArg Core.depth hc2
     have e1 : c2.rows = s.rows.filter (fun x => ![r.rowid].contains x.rowid) := by
